@@ -259,6 +259,41 @@ Theorem C19_early_ctrl_c :
 Proof. exact (conj (no_crash_run true) (conj pinned_agrees early_ctrl_c_fixed)). Qed.
 Print Assumptions C19_early_ctrl_c.
 
+(* ---- C19_exit: the helper's exit, with ANY status ---- *)
+
+(* In EVERY state in which the helper runs (session stopped already or not, transfer begun,
+   complete or not), its exit with status c stops the session, arms the cleanup timer and
+   sends the cancel sequence to the server; and nothing of this depends on c: for any two
+   statuses the outputs differ in the message shown only, the states in the recorded code
+   only. *)
+Theorem C19_exit_cancel_any_status : forall f c, hp (zs f) = HRun ->
+  In OCancelServer (snd (step f (EvHelperExit c))) /\
+  stopped (zs (fst (step f (EvHelperExit c)))) = true /\
+  tcu (zs (fst (step f (EvHelperExit c)))) = true /\
+  forall c', strip_msg (snd (step f (EvHelperExit c))) = strip_msg (snd (step f (EvHelperExit c'))) /\
+             forget_code (zs (fst (step f (EvHelperExit c)))) = forget_code (zs (fst (step f (EvHelperExit c')))) /\
+             ptr (fst (step f (EvHelperExit c))) = ptr (fst (step f (EvHelperExit c'))).
+Proof. exact (exit_any_status true). Qed.
+Print Assumptions C19_exit_cancel_any_status.
+
+(* ... and the session is over for good: after the exit (any status, any state with a running
+   helper), any events of a quiet server and the firing of the cleanup timer, a remote
+   program that repeats its header until it is sent the cancel sequence has been silenced
+   ([remote_waiting] is what the harness's scripted remote implements), no new session has
+   been started, and the wrapper is in pass-through (C19_bounded_swallow) *)
+Theorem C19_exit_returns_for_good : forall f c qs, hp (zs f) = HRun -> Forall quiet qs ->
+  let r := run f (EvHelperExit c :: qs ++ [EvCleanupFire]) in
+  remote_waiting (snd r) = false /\ has_start (snd r) = false /\ passthrough (fst r).
+Proof. exact exit_returns_for_good. Qed.
+Print Assumptions C19_exit_returns_for_good.
+
+Example C19_exit_nonvacuous :
+  let f := fst (run idle [EvServer hdr_download; EvGraceBegin; EvLaunch LaunchOk]) in
+  hp (zs f) = HRun /\ remote_waiting (snd (run idle [EvServer hdr_download; EvGraceBegin; EvLaunch LaunchOk])) = true /\
+  snd (step f (EvHelperExit 0)) = [OStopT TServer; OMsg MSuccess; OArm TCleanup; OCancelServer] /\
+  snd (step f (EvHelperExit 3)) = [OStopT TServer; OMsg (MExit 3); OArm TCleanup; OCancelServer].
+Proof. vm_compute. repeat split; reflexivity. Qed.
+
 (* ---- non-vacuity ---- *)
 Example C19_nonvacuous_session :
   (* Ctrl-C on a running download with a silent helper: stopped, helper alive, kill scheduled *)
